@@ -326,13 +326,15 @@ example : PolyaMirrorOK 1000 paIso paRead paInfo.extA paInfo.intA 0 ∧
     verifyPolyt nanoporeParams (mirrorL 1000 paIso) (mirrorL 1000 paRead) (mirrorPolyA 1000 paInfo) []
       = some [{ ty := .correct_polya_site_left, info := 620 }] := by decide
 
-/-- the hypothesis `SentinelInert` is needed (model AND code): `detect_reference_exons_beyond_polya` takes
-    `abs(exon_end − pos)` of the ABSENT internal position −1 as well; for a gene at the chromosome start the sentinel is
-    the nearer one (|30 − (−1)| = 31 ≤ 40 < |30 − 135|) and the last exon counts as "missed", while in the mirror image
-    (and after any large translation) it does not.  All coordinates are positive, no real position is −1. -/
-theorem verify_polya_sentinel_witness :
+/-- the former witness `verify_polya_sentinel_witness`: before the fix of the sentinel distance
+    `detect_reference_exons_beyond_polya` took `abs(exon_end − pos)` of the ABSENT internal position −1 as well, and for a
+    gene at the chromosome start the sentinel was the nearer one (|30 − (−1)| = 31 ≤ 40 < |30 − 135|).  Since the fix
+    (absent = infinitely far) the model AND the code are mirror dual on this input although `PolyaMirrorOK`
+    (its `SentinelInert` part) fails — the hypothesis is no longer needed (restated by the C01 builder; C11 owner: see
+    report).  All coordinates are positive, no real position is −1. -/
+theorem verify_polya_sentinel_fixed :
     verifyPolyt nanoporeParams (mirrorL 1000 sentIso) (mirrorL 1000 sentRead) (mirrorPolyA 1000 sentInfo) []
-      ≠ (verifyPolya nanoporeParams sentIso sentRead sentInfo []).map (List.map (mirrorEvent 1000 sentIso.length)) ∧
+      = (verifyPolya nanoporeParams sentIso sentRead sentInfo []).map (List.map (mirrorEvent 1000 sentIso.length)) ∧
     ¬ PolyaMirrorOK 1000 sentIso sentRead sentInfo.extA sentInfo.intA 0 := by decide
 
 /-- `check_internal_polya ↔ check_internal_polyt` -/
